@@ -474,6 +474,13 @@ theorem C29_group_step_inv {s s' : Lsm} {cd : CompactDef} {d n now : Nat} (h : L
   · rw [if_neg hin] at hi
     exact h.2.2.1 (i, tbls) ((LL.mem_zipIdx _ _ _).mpr hi)
 
+/-- a drop-group rewrite only removes entries -/
+theorem C29_group_step_subset {s s' : Lsm} {cd : CompactDef} {d n now : Nat} (h : LsmInv s)
+    (g : IsDropGroup s cd) (hs : s.compact cd d n now = some s') :
+    ∀ e ∈ s'.allEntries, e ∈ s.allEntries := by
+  obtain ⟨new0, hsp, rfl⟩ := LL.compact_some hs
+  exact fun e he => DG.mem_allEntries_after h g hsp he
+
 /-- versions stay `uint64`s -/
 theorem C29_group_step_verBound {s s' : Lsm} {cd : CompactDef} {d n now : Nat} (h : LsmInv s)
     (hv : VerBound s) (g : IsDropGroup s cd) (hs : s.compact cd d n now = some s') : VerBound s' := by
